@@ -47,7 +47,9 @@ def _param(name, loc, kind, required):
 def document(version="3.0.3"):
     comps = {
         "Color": {"type": "string", "enum": ["red", "dark blue"]},
-        "Body": {"type": "object", "required": ["n"], "properties": {"n": {"type": "integer"}, "when-at": {"type": "string", "format": "date"}}},
+        "Body": {"type": "object", "required": ["n"], "properties": {"n": {"type": "integer"}, "when-at": {"type": "string", "format": "date"},
+                                                                     "u": {"oneOf": [{"type": "string"}, {"type": "integer"}]},
+                                                                     "nn": {"type": "string", "nullable": True}}},
         "Item": {"type": "object", "required": ["id"], "properties": {"id": {"type": "integer"}}, "additionalProperties": False},
     }
     ops = {}
